@@ -4,31 +4,39 @@
 (* HostDepthCounts and the action property EntryRestores on all of them.                    *)
 EXTENDS HostVm, TLC
 
-CONSTANTS MaxFrames, MaxStack, MaxRust, MaxTmp, ArgcSet, RegSet
+CONSTANTS MaxFrames, MaxStack, MaxRust, MaxTmp, ArgcSet, RegSet,
+          EvalKinds, CallKinds, WithModule    \* which of the (model-identical) entry kinds are explored
+
+\* The bounds are GUARDS of the actions that make the state grow, not a state constraint: a state
+\* constraint would silently discard exactly the states a broken design produces (leftover slots
+\* above the running frame's bound) before any invariant is evaluated on them.
+RoomF == Len(frames) < MaxFrames
+RoomR == Len(rust) < MaxRust
+RoomS(n) == stackLen + n <= MaxStack
 
 Next ==
-  \/ \E k \in {"eval", "evalasync"}, r \in RegSet : HostEnterEval(k, r)
-  \/ \E r \in RegSet : HostEnterModule(r)
+  \/ \E k \in EvalKinds, r \in RegSet : RoomF /\ RoomR /\ RoomS(2 + r) /\ HostEnterEval(k, r)
+  \/ \E r \in RegSet : WithModule /\ RoomF /\ RoomR /\ RoomS(2 + r) /\ HostEnterModule(r)
   \/ \E r \in RegSet : ModuleLinked(r)
   \/ PrepareOk
   \/ PrepareErr
-  \/ \E k \in {"call", "construct"}, a \in ArgcSet : HostEnterCall(k, a)
-  \/ \E r \in RegSet : ResolveJs(r)
+  \/ \E k \in CallKinds, a \in ArgcSet : RoomR /\ RoomS(3 + a) /\ HostEnterCall(k, a)
+  \/ \E r \in RegSet : RoomF /\ RoomS(r) /\ ResolveJs(r)
   \/ \E c \in {"throw", "limit"} : ResolveErr(c)
   \/ ResolveNative
   \/ \E c \in Completions : DirectDone(c)
-  \/ HostEnterJobs
+  \/ RoomR /\ HostEnterJobs
   \/ \E c \in Completions : JobsDone(c)
   \/ \E k \in EntryKinds, c \in Completions : HostExit(k, c)
-  \/ \E n \in 1..2 : PushTmp(n)
+  \/ \E n \in 1..2 : RoomS(n) /\ stackLen + n <= Floor(TopF) + MaxTmp /\ PushTmp(n)
   \/ PopTmp(1)
-  \/ \E a \in ArgcSet, r \in RegSet : CallJs(a, r)
-  \/ \E a \in ArgcSet : CallNative(a)
-  \/ OpReenter
+  \/ \E a \in ArgcSet, r \in RegSet : RoomF /\ RoomS(r) /\ CallJs(a, r)
+  \/ \E a \in ArgcSet : RoomR /\ CallNative(a)
+  \/ RoomR /\ OpReenter
   \/ NativeReturn
   \/ NativeErrThrow
   \/ NativeErrLimit
-  \/ EnterTry
+  \/ Len(TopF.tries) < 1 /\ EnterTry
   \/ LeaveTry
   \/ ThrowHere
   \/ \E i \in 1..Len(frames) : CatchAt(i)
@@ -36,17 +44,10 @@ Next ==
   \/ Uncatchable
   \/ ReturnOp
   \/ \E g \in GenIds : GenCreate(g)
-  \/ \E g \in GenIds : GenResume(g)
+  \/ \E g \in GenIds : RoomF /\ RoomR /\ GenResume(g)
   \/ GenYield
   \/ \E c \in Completions \cup {"yield"} : ResumeExit(c)
 
 Spec == Init /\ [][Next]_vmvars
 
-Bound ==
-  /\ Len(frames) <= MaxFrames
-  /\ stackLen <= MaxStack
-  /\ Len(rust) <= MaxRust
-  /\ \A g \in GenIds : gens[g].saved <= MaxStack
-  /\ \A i \in 1..Len(frames) : Len(frames[i].tries) <= 1
-  /\ stackLen <= Floor(TopF) + MaxTmp
 =============================================================================
